@@ -383,6 +383,39 @@ def run_grid() -> list[dict]:
             rec["exc"] = type(e).__name__
             rec["msg"] = str(e)[:200]
         recs.append(rec)
+    # E': the engine given as a URL *string*, with the driver named explicitly and not (a file database: the table must exist)
+    import os
+    import tempfile
+
+    tmpd = tempfile.mkdtemp(prefix="c19url_", dir=os.path.join(os.path.dirname(os.path.dirname(os.path.abspath(__file__))), "out"))
+    dbfile = os.path.join(tmpd, "grid.db")
+    try:
+        import polars as pl
+
+        e0 = sqa.create_engine(f"sqlite:///{dbfile}")
+        pl.DataFrame({"i": [1, 2, 3], "f": [0.5, 1.5, None], "s": ["a", None, "c"]}).write_database("grid", e0)
+        e0.dispose()
+        for url in (f"sqlite:///{dbfile}", f"sqlite+pysqlite:///{dbfile}"):
+            rec = dict(case="E.url_string." + url.split(":")[0], dialect="sqlite")
+            try:
+                t = pdt.Table("grid", pdt.SqlAlchemy(url))
+                t2 = pdt.Table("grid", pdt.SqlAlchemy(sqa.create_engine(url)))
+                qs = [str(t >> pdt.mutate(z=t.i + 1, w=t.s.fill_null("x")) >> pdt.filter(t.f > 0) >> pdt.build_query()),
+                      str(t2 >> pdt.mutate(z=t2.i + 1, w=t2.s.fill_null("x")) >> pdt.filter(t2.f > 0) >> pdt.build_query())]
+                rows = (t >> pdt.group_by(t.s) >> pdt.summarize(n=pdt.count()) >> pdt.export(pdt.Polars())).height
+                rec["outcome"] = "accepted_ok" if qs[0] == qs[1] and qs[0].strip().upper().startswith("SELECT") and rows == 3 else "not_one_select"
+                if rec["outcome"] != "accepted_ok":
+                    rec["msg"] = (qs[0][:120] + " | " + qs[1][:120])
+            except Exception as e:  # noqa: BLE001
+                rec["outcome"] = "allowed" if type(e).__name__ in ALLOWED_BUILD else "internal"
+                rec["stage"] = "build_query"
+                rec["exc"] = type(e).__name__
+                rec["msg"] = str(e)[:200]
+            recs.append(rec)
+    finally:
+        import shutil
+
+        shutil.rmtree(tmpd, ignore_errors=True)
     for d in DIALECTS:
         eng = dialects.engine(d)
         for name, mk in cases:
